@@ -34,12 +34,15 @@ struct K8s {
     objects: BTreeMap<String, Value>,
     rv: u64,
     watchers: Vec<mpsc::UnboundedSender<WatchMsg>>,
+    /// every event ever emitted, with its resource version (a watch from version N is first brought up to date)
+    log: Vec<(u64, String)>,
     lists: u64,
     watches: u64,
 }
 
 impl K8s {
     fn broadcast(&mut self, line: String) {
+        self.log.push((self.rv, line.clone()));
         self.watchers.retain(|w| w.send(WatchMsg::Line(line.clone())).is_ok());
     }
     fn apply(&mut self, name: &str, mut obj: Value) {
@@ -68,7 +71,7 @@ impl K8s {
     }
     fn gone(&mut self) {
         let line = json!({"type": "ERROR", "object": {"kind": "Status", "apiVersion": "v1", "metadata": {}, "status": "Failure", "message": "too old resource version", "reason": "Expired", "code": 410}}).to_string();
-        self.broadcast(line);
+        self.watchers.retain(|w| w.send(WatchMsg::Line(line.clone())).is_ok());
         self.close_watches();
     }
 }
@@ -107,6 +110,14 @@ async fn serve(state: Arc<Mutex<K8s>>) -> SocketAddr {
                         {
                             let mut st = state.lock().unwrap();
                             st.watches += 1;
+                            // like the real API server: first everything that happened after the requested version
+                            let from: Option<u64> = target.split(['?', '&']).find_map(|kv| kv.strip_prefix("resourceVersion=")).and_then(|v| v.parse().ok());
+                            if let Some(from) = from {
+                                for (rv, line) in st.log.iter().filter(|(rv, _)| *rv > from) {
+                                    let _ = rv;
+                                    let _ = tx.send(WatchMsg::Line(line.clone()));
+                                }
+                            }
                             st.watchers.push(tx);
                         }
                         if sock.write_all(b"HTTP/1.1 200 OK\r\ncontent-type: application/json\r\ntransfer-encoding: chunked\r\n\r\n").await.is_err() {
@@ -355,7 +366,7 @@ fn run_history(spec: &Spec, counters: &(AtomicU64, AtomicU64)) -> Vec<(String, S
                 }
             }
             let want = barrier(&state);
-            let Some(snap) = wait_for(&adapter, |s| s.iter().any(|t| t.identifier == MARKER) == want, Duration::from_secs(8)).await else {
+            let Some(snap) = wait_for(&adapter, |s| s.iter().any(|t| t.identifier == MARKER) == want, Duration::from_secs(20)).await else {
                 v.push(("watch-not-applied".into(), format!("after step {} ({label}) the marker never became visible", i + 1)));
                 return v;
             };
